@@ -4,7 +4,9 @@ for l in open('/verif/properties.jsonl'):
     d=json.loads(l)
     if d['id']==pid:
         break
-wt="/tmp/seed-%s"%pid.lower()
+suffix=sys.argv[2] if len(sys.argv)>2 else ""
+avoid=sys.argv[3] if len(sys.argv)>3 else ""
+wt="/tmp/seed-%s%s"%(pid.lower(),suffix)
 print(f"""You are testing how well a Go code base is protected against subtle regressions. The repository skycoin/skycoin (a cryptocurrency full node and wallet written in Go) is checked out for you in your own scratch git worktree at {wt} (Go 1.23, offline sandbox: before any go command run `export GOFLAGS=-mod=mod GOPROXY=off GOSUMDB=off GOTOOLCHAIN=local`). Work ONLY inside {wt} (and /tmp for scratch files); do not read or touch /repo, /verif or any other directory, and do not use git commands that affect other worktrees.
 
 Here is a semantic property that the code base is supposed to satisfy:
@@ -21,7 +23,7 @@ YOUR TASK: produce ONE realistic change to the non-test source code under {wt}/s
 
 The change must look like something a developer could plausibly write (a refactoring slip, a wrong boundary, a dropped or reordered check, a misplaced early return, an optimisation that is wrong in a corner case, two sites that each look fine alone) — not sabotage that ordinary use would expose at once. Prefer changes that need something SPECIFIC to manifest: a particular multi-step sequence of operations, an unusual but legal input, a boundary value, a crash or fault at a particular point, a particular interleaving, or two cooperating sites. Do not edit tests, vendored code, generated `*_skyencoder.go` files' tests, or files whose name ends in `_verif.go` (those are instrumentation hooks behind a build tag; leave them alone and do not rely on them).
 
-ALSO produce a DEMONSTRATION: a new Go test file (package-internal `_test.go` placed next to the code, or a small `main` program under {wt}/cmd/seeddemo/) that FAILS with your change and PASSES without it, showing concretely how the property is violated (assert the property itself, e.g. compare against an independently computed expectation). Verify both directions yourself: run it with the change applied (must fail) and with the change reverted (must pass), then re-apply the change. NEVER use `git stash` (the stash is shared with other worktrees): save your change with `git diff > /tmp/<name>.patch`, revert it with `git apply -R`, re-apply with `git apply`.
+{('A previous exercise already used this change, so pick a DIFFERENT site and a different mechanism: '+avoid+chr(10)+chr(10)) if avoid else ''}ALSO produce a DEMONSTRATION: a new Go test file (package-internal `_test.go` placed next to the code, or a small `main` program under {wt}/cmd/seeddemo/) that FAILS with your change and PASSES without it, showing concretely how the property is violated (assert the property itself, e.g. compare against an independently computed expectation). Verify both directions yourself: run it with the change applied (must fail) and with the change reverted (must pass), then re-apply the change. NEVER use `git stash` (the stash is shared with other worktrees): save your change with `git diff > /tmp/<name>.patch`, revert it with `git apply -R`, re-apply with `git apply`.
 
 When done, leave the worktree with BOTH the change and the demonstration applied (uncommitted is fine), and write these files:
   {wt}/SEED/patch.diff   — `git diff` of the source change ONLY (no demonstration, no SEED dir)
